@@ -190,7 +190,7 @@ def main():
         sigs = br.get('signatures') or {}
         for sig, cnt in sorted(sigs.items()):
             ex_ = [f for f in br.get('failures', []) if f.get('signature') == sig]
-            kf = bounded_known.get(sig) or next((f for f in findings if f.get('status') == 'open' and f['property'] == prop and f.get('bounded_signature_prefix') and sig.startswith(f['bounded_signature_prefix'])), None)
+            kf = bounded_known.get(sig) or next((f for f in findings if f.get('status') == 'open' and f['property'] == prop and ((f.get('bounded_signature_prefix') and sig.startswith(f['bounded_signature_prefix'])) or (f.get('bounded_signature_contains') and f['bounded_signature_contains'] in sig))), None)
             if kf:
                 g = bounded_kf_groups.setdefault((kf['id'], br['id']), dict(kf=kf, n=0, sigs=[], ex=None))
                 g['n'] += cnt
@@ -322,6 +322,9 @@ def thorough_extras(prop, mine, repo, seed, results):
             # copy only the crates directory sources (small)
             subprocess.run(['rsync', '-a', '--exclude', 'target', '--exclude', '.git', '--exclude', 'node_modules',
                             os.path.join(repo, 'crates'), d + '/'], check=True)
+            for extra_ in ('Cargo.toml', 'Cargo.lock'):
+                if os.path.exists(os.path.join(repo, extra_)):
+                    shutil.copy(os.path.join(repo, extra_), d)
             p = subprocess.run(['patch', '-p1', '-s', '-i', mp], cwd=d, capture_output=True, text=True)
             if p.returncode != 0:
                 return dict(unit=u, mutant=os.path.basename(mp), result='patch-does-not-apply')
